@@ -589,6 +589,12 @@ def mk_ite(c, a, b):
     at = c.single_atom()
     if at is not None and at.kind == 'not':
         return mk_ite(at.args[0], b, a)
+    # L.append(x) on one branch, L.append(y) on the other  ==  L.append(x if c else y)
+    xa, xb = a.single_atom(), b.single_atom()
+    if xa is not None and xb is not None and xa.kind == 'call' and xb.kind == 'call' and xa.args[0] == 'mut.append' \
+            and xb.args[0] == 'mut.append' and len(xa.args[1]) == 2 and len(xb.args[1]) == 2 \
+            and xa.args[1][0].key == xb.args[1][0].key and not xa.args[2] and not xb.args[2]:
+        return Term.of(Atom('call', 'mut.append', (xa.args[1][0], mk_ite(c, xa.args[1][1], xb.args[1][1])), ()))
     return Term.of(Atom('ite', c, a, b))
 
 
